@@ -214,6 +214,7 @@ func session1(seed int64, i int) (ivs []interval, frames []rig.Frame, logged boo
 			rec("inbound-resend", t0, time.Now().Add(30*time.Millisecond))
 			at(5200 * time.Millisecond)
 			l.Conn.Feed(p.Resend(1, 3))
+			l.Conn.Feed(p.Resend(70000, 70005))
 			l.Conn.Feed(rig.BadChecksum(p.Heartbeat()))
 		case "relogon":
 			at(300 * time.Millisecond)
@@ -252,6 +253,9 @@ func session1(seed int64, i int) (ivs []interval, frames []rig.Frame, logged boo
 					l.Conn.Feed(p.App("x"))
 				case 2:
 					l.Conn.Feed(p.Resend(1, 0))
+					// and requests that cannot be served: beyond the last number sent, begin above end
+					l.Conn.Feed(p.Resend(90000+k, 90010+k))
+					l.Conn.Feed(p.Resend(5, 2))
 				default:
 					l.Conn.Feed(rig.BadChecksum(p.Heartbeat()))
 				}
